@@ -715,7 +715,14 @@ class C17(Prop):
                   'DataSet::getData(value, offset) / setData(value, offset), buffer size explicit): with the templates repaired a scalar '
                   'moves exactly one element - the window origin for an empty offset - or the call throws, a vector of n moves n; never an '
                   'access outside the value (C17_view_get_value_spec, C17_view_set_value_spec, C17_scalar_read_one_element; '
-                  'C17_scalar_template_refuted for the unrepaired templates).  For the pinned code each statement '
+                  'C17_scalar_template_refuted for the unrepaired templates).  Every template route of DataSet.hpp through a view for every '
+                  'Hydra container kind (scalar, T[N], T[M][N], vector, valarray, multi_array, NDArray; resize rules of Data/NDArr.v): '
+                  'getData(value, count, offset) is the (count, offset) request after the resize, an empty count being one element, and '
+                  'never transfers more than the resized value holds (C17_view_tget3_spec, C17_resize_holds; C17_tget3_refuted for '
+                  'the unrepaired template); getData(value) resizes to the window and receives it (C17_view_tgetall_spec); '
+                  'setData(value) reaches DataView::dataExtent(NDSize), which always throws - refused, nothing written.  '
+                  'util::positionInData (C17_position_in_data_spec), the multi-entry positionToIndex dispatcher and the 3-argument '
+                  'dataSlice are related to the definitions the slice theorems are about.  For the pinned code each statement '
                   'fails on a computed witness (..._refuted); the last theorem current_is_repaired ties the model driver to the repaired behaviour.  The '
                   'model is tied to the code by the correspondence run (model == implementation on every line, also for every single '
                   'patch with the matching switch); the extracted specification judges the implementation\'s answers.')
@@ -745,6 +752,10 @@ class C17(Prop):
                        'tree) / empty count or offset / zero counts / rank mismatch, reads and writes interleaved with whole-array dumps.  '
                        'Value streams: getData / setData(value, offset) with scalar and short-vector values x offsets empty / zeros / in window / '
                        'out of window / wrong rank x windows of 1 and more elements x ranks 1..3, through the view and on the array (control).  '
+                       'Typed streams: the five template routes x the seven container kinds with container extents, counts and offsets '
+                       'inside / crossing / empty / of wrong rank, windows with one, one non-singleton and several dimensions; access '
+                       'routes: 3-argument dataSlice, positionInData, getDimensionUnit, both generic positionToIndex dispatchers (1..3 entries, '
+                       'size mismatches, own / scaled / foreign units).  The evidence lists every entry point and the lines it got.  '
                        'Non-trivial = the model returned data for at least one line; distinct = distinct case text')
     assumptions = ['a dimension\'s coordinates are the doubles its descriptor yields (sampled: fl(fl(i*interval)+offset), range: the ticks, set / data frame: the index)',
                    'descriptors are well formed in the sense of the C07 theorems (dim_wf) and converted positions are finite, below 2^52 on set / data-frame dimensions (pos_ok)',
